@@ -28,10 +28,15 @@ GROUPS = [
          replay={"name": "s3file_file_replay", "harness": H, "entry": "r_s3file_arrays", "defines": ["S3_ELSZ=4", "FLEN=20", "MODE=2"], "native_replay": True, "canary": False,
                  "allow_no_body": NB, "unwind": 22, "native_sources": "ALL", "native_exclude": ["s3file.c"]},
          bounded="whole files of <= 20 symbolic bytes through the real get_3d (element size 4, both byte orders, checksum on/off)"),
-    dict(name="s3file_file_parse_header", harness=H, entry="r_s3file_arrays", defines=["S3_ELSZ=4", "FLEN=8", "MODE=3"], allow_no_body=NB, unwind=10,
+    dict(name="s3file_file_parse_header", tiers=("probe",), harness=H, entry="r_s3file_arrays", defines=["S3_ELSZ=4", "FLEN=8", "MODE=3"], allow_no_body=NB, unwind=10,
          replay={"name": "s3file_file_replay", "harness": H, "entry": "r_s3file_arrays", "defines": ["S3_ELSZ=4", "FLEN=8", "MODE=3"], "native_replay": True, "canary": False,
                  "allow_no_body": NB, "unwind": 10, "native_sources": "ALL", "native_exclude": ["s3file.c"]},
          bounded="whole files of <= 8 symbolic bytes through the real parse_header (element size 4, both byte orders, checksum on/off)"),
+]
+NATIVE = [
+    dict(name="s3file_header_enum", source="native/s3file_header_enum.c", repo_sources="ALL_EXCEPT:s3file.c,ckd_alloc.c", cflags=["-w", "-fsanitize=address"],
+         args={"quick": [], "thorough": ["thorough"]}, exhaustive=True,
+         bound="EVERY file of <= 5 bytes (thorough 6) over a 15-letter alphabet through the real s3file_parse_header, exact-size heap blocks under AddressSanitizer, exit() trapped"),
 ]
 ASSUMPTIONS = [
     "file view: a buffer of verif_flen <= 1 000 000 bytes; element size is a compile-time constant per run (4 in the quick tier)",
@@ -44,6 +49,6 @@ ASSUMPTIONS = [
 HAND_LEMMAS = []
 NOT_COVERED = ["the loaders above the s3file layer: bin_mdef_read_s3file, tmat_init_s3file, gauden/senone/ptm/s2_semi loaders, lda_read, acmod_load_am (seeded changes C17_A and C17_B live there); sub-agents reported further baseline defects there (tmat double free on bad checksum, sendump truncation freeing a pointer into the file buffer, NULL ciname in bin_mdef_free, unchecked tmat_init result) that are NOT decided by any check here", "mmap path", "the 'intact model loads afterwards' clause"]
 CLAIM = dict(
-    text="The s3file layer every model loader reads through is under contract: s3file_nextline/nextword (loop invariants, termination) and s3file_get (with byte-swap loops) never read outside the file for files of any length up to 1 MB; s3file_get_2d/_3d/verify_chksum are proved against the callee contracts to report failure through the return value, never reaching exit(), never allocating more than the file could fill and never building row pointers outside the data block. The whole chain (real get/get_1d/get_2d/get_3d/parse_header, byte-level copies) is additionally checked on every file of <= 12..20 symbolic bytes (bounded), which found two further genuine defects. The loaders above this layer are NOT covered.",
+    text="The s3file layer every model loader reads through is under contract: s3file_nextline/nextword (loop invariants, termination) and s3file_get (with byte-swap loops) never read outside the file for files of any length up to 1 MB; s3file_get_2d/_3d/verify_chksum are proved against the callee contracts to report failure through the return value, never reaching exit(), never allocating more than the file could fill and never building row pointers outside the data block. The whole chain (real get/get_1d/get_2d/get_3d, byte-level copies) is additionally checked on every file of <= 12..20 symbolic bytes (bounded) and the header parser on every file of <= 5 bytes over a 15-letter alphabet by native enumeration under ASan, which found two further genuine defects. The loaders above this layer are NOT covered.",
     note="s3file layer only; loaders (mdef, tmat, gauden, senone, sendump, lda) not under contract; get_1d by bounded check only; three genuine defects fixed; trusted: CBMC 6.11",
     technique="CBMC function + loop contracts (goto-instrument --dfcc) with pointer-offset invariants; bounded whole-file CBMC runs with unwinding assertions as stand-in for get_1d/parse_header; counterexamples replayed natively")
